@@ -167,6 +167,38 @@ def generic(run, rs, ctx, args, p, rel, assume, tag, outs):
     run.query(f"{tag}/unique", q2, "unsat", "component-uniqueness", get_model=False)
 
 
+def sub_check(run, rowsem):
+    """component_sub_point must emit exactly: the negation row of b (x -> -x) followed by the two
+    rows of add_point_gates(a, -b); proven row by row against the documented polynomials."""
+    ctx, nodes, paths = load_component(run, ["component_sub_point", "01"])
+    rs = reimport_rowsem(run, rowsem, ctx)
+    d = ctx.const(EDWARDS_D)
+    L = paths[0].layout
+    rows = list(rows_of(L))
+    free = lambda i: ctx.var(xe.wname(i))
+    if len(rows) != 3:
+        run.violations.append(("sub/rows", _w(run, "sub", f"{len(rows)} rows instead of neg + 2 addition rows")))
+        return
+    ax, ay, bx, by = (free(L.inputs[n]) for n in ("px", "py", "qx", "qy"))
+    g = [L.gates[i][1] for i in rows]
+    nx = free(g[0][2])
+    x3, y3, h = free(g[2][0]), free(g[2][1]), free(g[2][3])
+    doc = [bx + nx,                                   # -b.x - nx = 0 up to sign
+           ax * by - h,
+           h + ay * nx - (x3 + x3 * d * h * (ay * nx)),
+           ay * by + ax * nx - (y3 - y3 * d * h * (ay * nx))]
+    comps = [c for i in rows for _, c in row_polys(rs, L, i, free)]
+    if len(comps) != 4:
+        run.violations.append(("sub/components", _w(run, "sub", f"{len(comps)} components")))
+        return
+    from checks.c13 import _pm
+    run.obligation("sub/emit/0", *(_pm(ctx, comps[0], doc[0])), expect="unsat", kind="identity")
+    for j in (1, 2, 3):
+        run.identity(f"sub/emit/{j}", comps[j], doc[j])
+    if tuple(L.returned["out"]) != (g[2][0], g[2][1]):
+        run.violations.append(("sub/returned", _w(run, "sub", "returned point is not the addition output")))
+
+
 def structure_checks(run):
     """sub = neg;add and mul_point = decomposition;252x[dbl, select, add]: structural
     comparison of the extracted layouts (concrete), auxiliary to the lemmas above"""
@@ -213,6 +245,7 @@ def run(run):
     add_checks(run, rowsem, "01")
     add_checks(run, rowsem, "00")
     fixed_checks(run, rowsem)
+    sub_check(run, rowsem)
     structure_checks(run)
     run.add_functions(["Composer::add_point_gates", "Composer::component_add_point", "Composer::component_sub_point",
                        "Composer::component_neg_point", "Composer::component_select_identity",
